@@ -357,6 +357,17 @@ func checkVersionRoundTrip(s string, r *Recorder) error {
 	if err := v4.UnmarshalText(mt); err != nil || v4 != v {
 		return errf("marshalled-text round trip of %+v via %q gives %+v, %v", v, mt, v4, err)
 	}
+	// the bytes MarshalText handed out are the caller's: rendering other versions afterwards (a list
+	// being marshalled element by element) must not reach back into them
+	held := string(mt)
+	other := version.Version{Epoch: 9, Version: "99.99+other~x", Revision: "zz9"}
+	_ = other.String()
+	_, _ = (&other).MarshalText()
+	_, _ = other.MarshalControl()
+	_ = other.StringWithoutEpoch()
+	if string(mt) != held {
+		return errf("the text MarshalText returned for %+v (%q) reads %q after another version was rendered", v, held, mt)
+	}
 	js, err := json.Marshal(&v)
 	if err != nil {
 		return errf("json.Marshal(&%+v): %v", v, err)
@@ -370,7 +381,7 @@ func checkVersionRoundTrip(s string, r *Recorder) error {
 
 var specC03RoundTrip = Register(&Spec[VersionText]{
 	Prop: "C03", Name: "roundtrip",
-	Rule:  "candidate strings from three sources - Policy-grammar renderings, one or two byte edits of them over [0-9abAZ.+~:-] and blanks, and short soups over that alphabet; every string Parse accepts must satisfy Parse(String(v))==v, UnmarshalControl(MarshalControl(v))==v, UnmarshalText(MarshalText(&v))==v and json.Unmarshal(json.Marshal(&v))==v, always into fresh receivers. Non-trivial: accepted and has an epoch, explicit 0 epoch, revision, ':' or '-' inside upstream, trailing hyphen or empty upstream; distinct by text.",
+	Rule:  "candidate strings from three sources - Policy-grammar renderings, one or two byte edits of them over [0-9abAZ.+~:-] and blanks, and short soups over that alphabet; every string Parse accepts must satisfy Parse(String(v))==v, UnmarshalControl(MarshalControl(v))==v, UnmarshalText(MarshalText(&v))==v and json.Unmarshal(json.Marshal(&v))==v, always into fresh receivers; the bytes MarshalText returned stay what they were while another version is rendered. Non-trivial: accepted and has an epoch, explicit 0 epoch, revision, ':' or '-' inside upstream, trailing hyphen or empty upstream; distinct by text.",
 	Check: func(c VersionText, r *Recorder) error { return checkVersionRoundTrip(c.S, r) },
 })
 
